@@ -22,16 +22,23 @@ theorem C20_eval_text (cfg : ECfg) (al : List (Str × Val)) (s : Str) (f : Nat) 
 end ChamVerif
 
 namespace ChamVerif
+/-- the text a text-mode template is compiled from: its source, with CR / CRLF normalised to LF unless it begins with an XML
+declaration (the content type is sniffed from the source whatever the template class, and `text/xml` keeps its line ends) -/
+def textBody (r : RenderReq) : Str := if r.xmlMode.getD (isXmlDoc r.src) then r.src else normalizeNewlines r.src
+
 /-- **C20 on the whole render function**: a text-mode template whose source holds no `${` renders as its source
-(newlines normalised, `$$` → `$`): whatever `<`, `&`, quotes, tag-like or `tal:`-like text it contains. -/
+(`textBody`: newlines normalised unless it begins with an XML declaration; `$$` → `$`): whatever `<`, `&`, quotes, tag-like or
+`tal:`-like text it contains. -/
 theorem C20_render_verbatim (r : RenderReq) (ht : r.textMode = true) (hq : r.bcfg.q.textModeIdentify = false)
-    (hi : r.bcfg.implicitI18nTranslate = false) (hn : hasInterp (normalizeNewlines r.src) = false) (hl : r.libs = []) :
-    render r = .out (undoubleDollar (normalizeNewlines r.src)) #[] #[] 0 := by
+    (hi : r.bcfg.implicitI18nTranslate = false) (hn : hasInterp (textBody r) = false) (hl : r.libs = []) :
+    render r = .out (undoubleDollar (textBody r)) #[] #[] 0 := by
   unfold render
+  unfold textBody at hn ⊢
   simp only [ht, Bool.not_true, Bool.and_false, if_false, Bool.false_eq_true]
+  generalize (if r.xmlMode.getD (isXmlDoc r.src) = true then r.src else normalizeNewlines r.src) = b at hn ⊢
   rw [C20_build_verbatim (c := _) (src := _) (hq := by simpa using hq) (hi := by simpa using hi) (hn := hn)]
   simp only []
-  have hf : 8 * (normalizeNewlines r.src).length + 64 = (8 * (normalizeNewlines r.src).length + 61) + 3 := by omega
+  have hf : 8 * b.length + 64 = (8 * b.length + 61) + 3 := by omega
   rw [hf]
   have hc : ∀ tc strict f s, compileCheck tc strict (f + 3) [] (.seq [.text s]) = .ok () := by
     intro tc strict f s
